@@ -39,12 +39,19 @@ def expected_ast(template):
     return tree
 
 
+def _show(x):
+    try:
+        return ast.unparse(x)[:100] if isinstance(x, ast.AST) else repr(x)[:100]
+    except Exception:  # noqa
+        return repr(x)[:100]
+
+
 def match(got, exp):
     """structural equality with ANY wildcards in exp; returns (ok, first difference)"""
     if isinstance(exp, ast.Name) and exp.id == 'ANY':
         return True, ''
     if type(got) is not type(exp):
-        return False, f'{ast.unparse(got)[:80]} where {ast.unparse(exp)[:80]} is prescribed'
+        return False, f'{_show(got)} where {_show(exp)} is prescribed'
     if isinstance(got, ast.AST):
         for f in got._fields:
             if f in ('ctx', 'kind', 'type_comment'):
@@ -52,7 +59,7 @@ def match(got, exp):
             ok, why = match(getattr(got, f, None), getattr(exp, f, None))
             if not ok:
                 return False, why if isinstance(getattr(got, f, None), (ast.AST, list)) and why else \
-                    f'{ast.unparse(got)[:100]} where {ast.unparse(exp)[:100]} is prescribed'
+                    f'{_show(got)} where {_show(exp)} is prescribed'
         return True, ''
     if isinstance(got, list):
         if len(got) != len(exp):
@@ -69,7 +76,21 @@ def run_table(res, prop, table, cells=None, titles=('S',)):
     """table: [(clause name, formula, expected template or callable(ast)->(ok, text), note)].
     One KS obligation per row; decisive (a wrong emitted shape is an input on which the statement fails)."""
     formulas = [row[1] for row in table]
-    r = native.call('schema', 'emit_each', formulas=formulas, cells=cells or [], titles=list(titles))
+    try:
+        r = native.call('schema', 'emit_each', formulas=formulas, cells=cells or [], titles=list(titles))
+    except native.NativeError:
+        # the real pipeline failed outside its own error reporting on some schema formula (e.g. the emitted module does not
+        # compile): run the formulas one by one, so that the failing ones are reported as failed obligations, not as a crash
+        r = {'codes': [], 'errors': []}
+        for f in formulas:
+            try:
+                one = native.call('schema', 'emit_each', formulas=[f], cells=cells or [], titles=list(titles))
+                r['codes'].append(one['codes'][0])
+                r['errors'].append(one['errors'][0])
+            except native.NativeError as e:
+                last = [ln for ln in str(e).strip().splitlines() if ln.strip()]
+                r['codes'].append(None)
+                r['errors'].append('the real pipeline raised outside its error reporting: ' + (last[-1][:200] if last else 'unknown'))
     obs = []
     # PARAM: the side condition that turns one schema run into a statement about all operands (L-SUBST)
     from . import param
